@@ -292,6 +292,118 @@ theorem C03_jsr_variable_root_witness :
     Spec.rootMoreSpecific (tokenize "/a".toList) (tokenize "/{x}".toList) = true := by
   decide
 
+/-! ### non-vacuity (audit): every theorem of this file instantiated on the concrete tables
+`C03Example` (Lemmas/Order.lean: `/users` with GET `/{id}`, GET `/me`, POST `/{id}`; `/{tenant}` with
+GET `/{thing}`; request GET /users/me; `cfg'` = the same services and routes in another order) and
+`C03JsrExample` (Lemmas/OrderJsr.lean: `/users`, `/users/admin`; request GET /users/admin/x), each
+hypothesis discharged by `decide` or by the lemmas proved there. -/
+namespace C03Audit
+open C03Example (E0)
+
+/-- the two templates competing for GET /users/me, as the checked reading gives them -/
+def tsMe : List TTok := [⟨.lit "users".toList, none⟩, ⟨.lit "me".toList, none⟩]
+def tsId : List TTok := [⟨.lit "users".toList, none⟩, ⟨.var "id".toList, none⟩]
+
+example : readTemplate "/users/me".toList = some tsMe ∧ readTemplate "/users/{id}".toList = some tsId ∧
+    Spec.moreSpecific tsMe tsId = true ∧ Spec.moreSpecific tsId tsMe = false ∧ Spec.moreSpecific tsMe tsMe = false := by
+  decide
+/-- `C03_curly_key` -/
+example : staticCount tsMe > staticCount tsId := C03_curly_key tsMe tsId (by decide)
+
+/-- the request's segments and three roots: `/users`, `/{tenant}`, `/users/me` -/
+def qs : List Str := tokenize "/users/me".toList
+def rUsers : List Str := tokenize "/users".toList
+def rTenant : List Str := tokenize "/{tenant}".toList
+def rUsersMe : List Str := tokenize "/users/me".toList
+
+example : Curly.wsScore qs rUsers = some 10 ∧ Curly.wsScore qs rTenant = some 1 ∧ Curly.wsScore qs rUsersMe = some 30 ∧
+    Curly.wsScoreE E0 qs rUsers = .yes 10 ∧ Curly.wsScoreE E0 qs rTenant = .yes 1 ∧ Curly.wsScoreE E0 qs rUsersMe = .yes 30 ∧
+    Spec.rootMoreSpecific rUsers rTenant = true ∧ rUsers <+: rUsersMe ∧ rUsers ≠ rUsersMe := by
+  decide
+/-- `C03_root_literal_beats_variable`, `…_claimed`, `C03_rootE_literal_beats_variable` -/
+example : 10 > 1 := C03_root_literal_beats_variable qs rUsers rTenant (by decide) (by decide) 10 1 (by decide) (by decide)
+example : 10 > 1 := C03_root_literal_beats_variable_claimed qs rUsers rTenant (by decide) 10 1 (by decide) (by decide)
+example : 10 > 1 := C03_rootE_literal_beats_variable E0 qs rUsers rTenant (by decide) (by decide) 10 1 (by decide) (by decide)
+/-- `C03_root_longer_beats_prefix`, `C03_rootE_longer_beats_prefix` -/
+example : 30 > 10 := C03_root_longer_beats_prefix qs rUsersMe rUsers (by decide) (by decide) 30 10 (by decide) (by decide)
+example : 30 > 10 := C03_rootE_longer_beats_prefix E0 qs rUsersMe rUsers (by decide) (by decide) 30 10 (by decide) (by decide)
+/-- `C03_claimed_score` -/
+example : Curly.wsScore qs rUsers = some 10 := C03_claimed_score E0 qs rUsers 10 (by decide)
+
+/-- `C03_best_service`: two roots claim GET /users/me, the literal one (score 10 against 1) is consulted -/
+example : C03Example.users ∈ C03Example.cfg.services ∧
+    Curly.wsScoreE E0 qs (tokenize C03Example.users.rootPath) = .yes 10 ∧
+    ∀ s' ∈ C03Example.cfg.services, ∀ sc', Curly.wsScoreE E0 qs (tokenize s'.rootPath) = .yes sc' → sc' ≤ 10 :=
+  C03_best_service E0 qs C03Example.cfg.services C03Example.users 10 (by decide)
+
+/-- `C03_no_service`, both directions inhabited: no root of `/users`, `/users/admin` claims /orgs/1 … -/
+example : ∀ s ∈ curlyNested.services, Curly.wsScoreE E0 (tokenize "/orgs/1".toList) (tokenize s.rootPath) = .no :=
+  (C03_no_service E0 _ _).mp (by decide)
+/-- … and some root claims /users/me, so a service is consulted -/
+example : Curly.detectWebService E0 qs curlyNested.services none ≠ some none := by decide
+
+/-- `C03_curly_never_less_specific` (hypotheses: well-formed, CurlyRouter, a route was selected —
+    two routes of `/users` were candidates, see the example below `C03_holds_jsr`) -/
+example := C03_curly_never_less_specific E0 C03Example.cfg (by decide) rfl C03Example.req 1 11 [] (by decide)
+
+/-- `C03_holds_curly`, `C03_holds_jsr` on the instances of the examples above -/
+example : Spec.c03Holds E0 C03Example.cfg C03Example.req (route E0 C03Example.cfg C03Example.req) = true :=
+  C03_holds_curly E0 C03Example.cfg (by decide) rfl C03Example.req
+example : Spec.c03Holds E0 C03JsrExample.cfg C03JsrExample.req (route E0 C03JsrExample.cfg C03JsrExample.req) = true :=
+  C03_holds_jsr E0 C03JsrExample.cfg (by decide) rfl C03JsrExample.req
+
+/-- `C03_curly_order_claimed_partial` and `C03_curly_order_partial`: the two registrations differ,
+    both roots claim the request, a route is selected -/
+example : Spec.distinctMethodPathB C03Example.cfg = true ∧ Spec.scoresSeparateB C03Example.cfg C03Example.req = true ∧
+    C03Example.cfg ≠ C03Example.cfg' ∧ route E0 C03Example.cfg C03Example.req = .selected 1 11 [] ∧
+    route E0 C03Example.cfg' C03Example.req = .selected 1 11 [] := by
+  decide
+example : Spec.sameOutcome (route E0 C03Example.cfg C03Example.req) (route E0 C03Example.cfg' C03Example.req) :=
+  C03_curly_order_claimed_partial E0 C03Example.cfg C03Example.cfg' rfl C03Example.cfgPerm (by decide) C03Example.req
+    (Curly.scoresSeparateE_of E0 C03Example.separate)
+example : Spec.sameOutcome (route E0 C03Example.cfg C03Example.req) (route E0 C03Example.cfg' C03Example.req) :=
+  C03_curly_order_partial E0 C03Example.cfg C03Example.cfg' rfl C03Example.cfgPerm (by decide) C03Example.req (by decide)
+
+/-- `Spec.sameOutcome` is not trivially true: it separates two different routes, a route from an
+    error, two Allow sets -/
+example : ¬ Spec.sameOutcome (.selected 1 11 []) (.selected 1 10 [("id".toList, "me".toList)]) ∧
+    ¬ Spec.sameOutcome (.selected 1 11 []) (.error 404 none) ∧
+    ¬ Spec.sameOutcome (.error 405 (some ["GET".toList])) (.error 405 (some ["GET".toList, "PUT".toList])) := by
+  refine ⟨by simp [Spec.sameOutcome], by simp [Spec.sameOutcome], ?_⟩
+  simp only [Spec.sameOutcome, true_and]
+  intro h
+  exact absurd ((h "PUT".toList).mpr (by decide)) (by decide)
+
+/-- `C03_jsr_never_less_specific` (two routes of `/users/admin` were candidates) -/
+example := C03_jsr_never_less_specific E0 C03JsrExample.cfg rfl C03JsrExample.req 2 21 [] (by decide)
+
+/-- `C03_jsr_literal_root_longest`: both literal roots match GET /users/admin/x, the longer one is dispatched to -/
+example := C03_jsr_literal_root_longest E0 C03JsrExample.cfg.services C03JsrExample.req.path C03JsrExample.admin
+  "/x".toList C03JsrExample.literalRoots (by decide)
+
+/-- the last hypothesis of `C03_jsr_order` on `C03JsrExample.cfg`: the compiled roots are different -/
+theorem rootsDiffer : C03JsrExample.cfg.services.Pairwise (fun a b => ∀ exa exb, Jsr.compile a.rootPath = some exa →
+    Jsr.compile b.rootPath = some exb → exa.toks ≠ exb.toks) := by
+  simp only [C03JsrExample.cfg, List.pairwise_cons, List.mem_cons, List.not_mem_nil, or_false, forall_eq,
+    false_imp_iff, implies_true, List.Pairwise.nil, and_true]
+  intro exa exb ha hb
+  rw [C03JsrExample.cUsers] at ha
+  rw [C03JsrExample.cAdmin] at hb
+  cases ha
+  cases hb
+  decide
+
+/-- `C03_jsr_order` with all five hypotheses; the registrations differ and a route is selected -/
+example : Spec.sameOutcome (route E0 C03JsrExample.cfg C03JsrExample.req) (route E0 C03JsrExample.cfg' C03JsrExample.req) :=
+  C03_jsr_order E0 C03JsrExample.cfg C03JsrExample.cfg' rfl C03JsrExample.cfgPerm (by decide) C03JsrExample.req
+    C03JsrExample.literalRoots rootsDiffer
+example : C03JsrExample.cfg ≠ C03JsrExample.cfg' ∧
+    route E0 C03JsrExample.cfg C03JsrExample.req = .selected 2 21 [] ∧
+    route E0 C03JsrExample.cfg' C03JsrExample.req = .selected 2 21 [] := by
+  decide
+
+end C03Audit
+
 /-! The frame condition (Lemmas/StateShape.lean): the code has exactly the state this property's model
     accounts for — no further package-level variable, struct type or field; constants as modelled. -/
 -- also: Restful.StateShape.globals_shape
